@@ -653,6 +653,10 @@ class Engine:
             if isinstance(t, ast.Attribute):
                 base = self.eval(t.value)
                 if isinstance(base, Obj):
+                    hook = self.c.models.get(f'delattr:{base.cls}.{t.attr}')
+                    if hook:
+                        hook(self, base)
+                        continue
                     if t.attr not in base.f:
                         raise PyRaise('AttributeError')
                     del base.f[t.attr]
@@ -1873,6 +1877,9 @@ class Engine:
         if isinstance(recv, Opt):
             self.oblige('safety', f'none:{ast.unparse(e)}'[:60], z3.Not(recv.isnone))
             recv = recv.val
+        if isinstance(recv, Obj) and name in recv.f and (isinstance(recv.f[name], (Closure, BoundMethod)) or
+                                                          (callable(recv.f[name]) and not z3.is_expr(recv.f[name]))):
+            return self.call_value(recv.f[name], args, kwargs, e)          # a field that holds a function
         if isinstance(recv, Obj):
             cc = self.find_contract(recv.cls, name)
             if cc is None:
@@ -2264,6 +2271,12 @@ class Engine:
             return False
         if isinstance(v, (bytes, bytearray)):
             return bool(kinds & {'bytes', 'bytearray'})
+        if isinstance(v, dict):
+            return 'dict' in kinds
+        if isinstance(v, (PyList, ArrList, SeqFn)):
+            return 'list' in kinds
+        if isinstance(v, tuple):
+            return 'tuple' in kinds
         if hasattr(v, 'py_types'):
             return bool(kinds & set(v.py_types))        # a model object says which Python types it stands for
         raise Unsupported(f'isinstance of {v!r}')
